@@ -10,6 +10,19 @@ mod tests;
 use ff::Field;
 use CurveProjective;
 
+/// Verification hook: read access to the isogeny coefficient tables
+/// (x numerator, x denominator, y numerator, y denominator).
+#[cfg(feature = "verif")]
+pub mod verif_tables {
+    use bls12_381::{Fq, Fq2};
+    pub fn g1() -> [&'static [Fq]; 4] {
+        super::g1::verif_tables()
+    }
+    pub fn g2() -> [&'static [Fq2]; 4] {
+        super::g2::verif_tables()
+    }
+}
+
 /// Alias for the coordinate type corresponding to a CurveProjective type
 type CoordT<PtT> = <PtT as CurveProjective>::Base;
 
@@ -21,6 +34,8 @@ pub trait IsogenyMap {
 
 /// Generic isogeny evaluation function
 fn eval_iso<PtT: CurveProjective>(pt: &mut PtT, coeffs: [&[CoordT<PtT>]; 4]) {
+    #[cfg(feature = "verif")]
+    ::verif_probe::probe(::verif_probe::EVAL_ISO);
     // XXX hack: In array below, 16 is long enough for both iso11 and iso3.
     // Rust (still) can't handle generic array sizes (issue #43408)
     let mut tmp = [CoordT::<PtT>::zero(); 16];
